@@ -182,8 +182,8 @@ Unit("C04", "Data_K.degen [real function, all energy scales]", concrete=_degen_c
 
 
 # ------------------------------------------------------------------ UU_K
-def _uu_unit(random_gauge):
-    @unit("C04", "Data_K.UU_K[random_gauge=%s]" % random_gauge, scope="shape:nk=2, 4 bands, groups (1,3) and (0,2)+(2,4)", expect_min=2,
+def _uu_unit(random_gauge, prop="C04"):
+    @unit(prop, "Data_K.UU_K[random_gauge=%s]" % random_gauge, scope="shape:nk=2, 4 bands, groups (1,3) and (0,2)+(2,4)", expect_min=2,
           replay=lambda mv, ob: _replay_gauge(), replay_once=True)
     def _u(U):
         drawn = []
